@@ -210,6 +210,13 @@ class Union(Ty):
         return self.alts[i].concrete(cx, name)
 
 
+def _bare_instance(cls):
+    try:
+        return object.__new__(cls)
+    except TypeError:          # a base class implemented in C (e.g. io.TextIOBase) has its own __new__
+        return cls.__new__(cls)
+
+
 class Inst(Ty):
     """A real instance of class ``cls`` with the given (already mangled) instance attributes."""
 
@@ -226,7 +233,7 @@ class Inst(Ty):
         elif issubclass(cls, BaseException):
             obj = cls.__new__(cls)
         else:
-            obj = object.__new__(cls)
+            obj = _bare_instance(cls)
         for k, t in self.fields.items():
             v = t.make(interp, '%s.%s' % (name, k)) if isinstance(t, Ty) else t
             object.__setattr__(obj, k, v)
@@ -243,7 +250,7 @@ class Inst(Ty):
         elif issubclass(cls, BaseException):
             obj = cls.__new__(cls)
         else:
-            obj = object.__new__(cls)
+            obj = _bare_instance(cls)
         for k, t in self.fields.items():
             v = t.concrete(cx, '%s.%s' % (name, k)) if isinstance(t, Ty) else t
             object.__setattr__(obj, k, v)
@@ -424,13 +431,14 @@ class IterOf(Ty):
     """An iterator over a sequence of symbolic length (e.g. the lines of a file), positioned at its start.
     In clauses: `it.xs` is the underlying sequence, `it.pos` the number of items consumed so far."""
 
-    def __init__(self, elem, at_start=True):
+    def __init__(self, elem, at_start=True, min_len=0):
         self.elem = elem
         self.at_start = at_start      # False: an arbitrary number of items has been consumed already
+        self.min_len = min_len
 
     def make(self, interp, name):
         from .models import SIter
-        xs = ListOf(self.elem).make(interp, name)
+        xs = ListOf(self.elem, self.min_len).make(interp, name)
         if self.at_start:
             return SIter(xs, 0)
         p = interp.st.fresh_int(name + '.pos')
@@ -453,6 +461,23 @@ class FixedList(Ty):
     def concrete(self, cx, name):
         vals = [t.concrete(cx, '%s[%d]' % (name, i)) for i, t in enumerate(self.elems)]
         return tuple(vals) if self.as_tuple else vals
+
+
+class CtxOf(Ty):
+    """The result of an `@contextmanager` generator function used through its contract: yields one value."""
+
+    def __init__(self, inner):
+        self.inner = inner
+
+    def make(self, interp, name):
+        from .interp import GenObj
+        v = self.inner.make(interp, name) if isinstance(self.inner, Ty) else self.inner
+
+        def runner(gen):
+            gen.do_yield(v)
+            return None
+
+        return GenObj(interp, runner, name)
 
 
 class FixedDict(Ty):
@@ -516,6 +541,33 @@ class Dependent(Ty):
 
     def make_for_call(self, interp, name, env):
         return self.fn(interp, name, env)
+
+
+class InPlace:
+    """`modifies` entry for an object whose (ghost) fields a loop body changes through method calls:
+    the named fields are havocked in place, the object identity is kept."""
+
+    def __init__(self, **fields):
+        self.fields = fields
+
+    def havoc_in_place(self, interp, obj, tag):
+        from .values import Opaque
+        for k, ty in self.fields.items():
+            v = ty.make(interp, '%s.%s' % (tag, k)) if isinstance(ty, Ty) else ty
+            if isinstance(obj, Opaque):
+                obj._pv_ghost[k] = v
+            else:
+                interp.setattr(obj, k, v)
+
+
+class InPlaceBy:
+    """`modifies` entry: the object is havocked in place by fn(interp, obj, tag) (engine API)."""
+
+    def __init__(self, fn):
+        self.fn = fn
+
+    def havoc_in_place(self, interp, obj, tag):
+        self.fn(interp, obj, tag)
 
 
 def make_indexed(interp, ty, uid, idx_term, prefix=()):
@@ -651,12 +703,14 @@ class Interface:
 
     target_class : the real (abstract) class the objects claim to be instances of
     attrs        : {name: Ty}           -- pure attributes / properties (cached per object)
+    props        : {name: model(interp, self)}  -- computed properties (evaluated at every read)
     attr_raises  : {name: (predicate(self), ExceptionClass)}  -- reading raises when predicate
     methods      : {name: Method}
     invariant    : optional staticmethod predicate(self) assumed when an object is created
     """
     target_class = None
     attrs = {}
+    props = {}
     attr_raises = {}
     methods = {}
     computed = {}          # {name: fn(interp, obj) -> value}: attributes that are functions of the object
@@ -828,7 +882,8 @@ class Registry:
                 except Exception as e:
                     self.missing.append((q, 'locals=: cannot locate the source (%s)' % e))
         self.loops_by_code = {}
-        for (q, ordinal), ls in self.loops.items():
+        for key, ls in self.loops.items():
+            q, ordinal = key[0], key[1]
             try:
                 # a loop of a nested function: only the enclosing function can be resolved statically
                 obj, owner = frontend.resolve_qualified(q.partition('.<locals>')[0])
@@ -905,6 +960,9 @@ class Registry:
                 raise PyRaise(exc('interface: %s not available' % name))
         if name in o._pv_attrs:
             return o._pv_attrs[name]
+        pm = _iface_lookup(iface, 'props', name)
+        if pm is not None:
+            return pm(interp, o)       # computed property: model(interp, self), evaluated at every read
         ty = _iface_lookup(iface, 'attrs', name)
         if isinstance(ty, Derived):
             return interp.call(ty.fn, [o], {})
@@ -939,6 +997,7 @@ class Registry:
     def opaque_has(self, interp, o, name):
         iface = o._pv_iface
         return _iface_lookup(iface, 'attrs', name) is not None or _iface_lookup(iface, 'methods', name) is not None \
+            or _iface_lookup(iface, 'props', name) is not None \
             or _iface_lookup(iface, 'computed', name) is not None
 
     def opaque_type(self, interp, o):
@@ -1255,6 +1314,7 @@ class Module:
 
     def loop(self, qname, ordinal, **kw):
         ls = LoopSpec(qname, ordinal, **kw)
+        ls.module = self           # several sidecar modules may annotate the same loop (each for its own contract)
         self.loops.append(ls)
         return ls
 
